@@ -21,6 +21,7 @@ TECHNIQUE = ("deterministic simulation: seeded search over schedules, mailbox "
              "event")
 RULE += (' Two of eight configurations make both sides dilate as well (dilate-N control messages share the mailbox with application phases).')
 RULE += (' Two further configurations hold long conversations (11..16 messages each way, phase numbers with two digits) on a reordering server.')
+RULE += (' Two configurations run at scale (18..40 messages each way): a reader that starts late, and a reader that keeps 11..25 get_message() Deferreds outstanding.')
 RULE += (' In some configurations clients are pipelined readers (1..3 get_message() Deferreds outstanding, re-issued from each callback).')
 LEVEL_TEXT = ("Seeded exploration (no enumeration) of two real clients + real "
               "mailbox server under a simulated reactor/network; safety oracle "
@@ -61,6 +62,13 @@ def configs(tier):
     out.append({"spake": "stub", "faults": False, "reorder_heavy": True,
                 "max_msgs": 16, "min_msgs": 11, "reentrant": True,
                 "pipeline": True})
+    # scale: 18..40 messages each way; a reader that starts late (nothing
+    # asks for the messages meanwhile), or one that keeps 11..25 reads
+    # outstanding and re-issues them from the callbacks
+    out.append({"spake": "stub", "faults": False, "max_msgs": 40,
+                "min_msgs": 18, "slow_reader": True})
+    out.append({"spake": "stub", "faults": True, "max_msgs": 40,
+                "min_msgs": 20, "pipeline": "deep"})
     return out
 
 
